@@ -219,7 +219,12 @@ class MoveAlgebra(common.Suite):
             return r
         a = self.evaluate(e[1])
         sa = self.snap(a)
-        r = a * e[2]
+        n = e[2]
+        if type(n) is int and n >= 1 and n % 2 == 1 and getattr(self, "numpy_counts", True):
+            import numpy as np
+
+            n = np.int64(n)        # a positive integer that comes out of a numpy computation (np.sum(mask), labels.max() + 1)
+        r = a * n
         if self.snap(a) != sa:
             self.mutated.append("the operand of * changed")
         return r
